@@ -9,7 +9,7 @@ import z3
 
 from jvc.lib import LIB as _L, model
 from jvc.symexec import Contract, arr_index, b_and, q_forall, str_const, to_z3
-from jvc.values import Arr, NameRef, Obj, Opaque, PyDict, PyList, SliceV, Unsupported, fresh_arr, fresh_bool, fresh_int, fresh_name, PyObj
+from jvc.values import Arr, NameRef, Obj, Opaque, PyDict, PyList, SliceV, SymSeq, Unsupported, fresh_arr, fresh_bool, fresh_int, fresh_name, PyObj
 
 from . import astromodel as A
 from . import common  # noqa: F401
@@ -411,3 +411,51 @@ CONTRACTS += write_table
 for _c in CONTRACTS:
     _c.callees = CALLEES
     _c.lib = LIB
+
+
+# ---- the two small header helpers the readers rely on (above they enter as callee models): decided on a header with three column entries, one of
+# which stores no unit ------------------------------------------------------------------------------------------------------------------------------
+def _header_rows(path):
+    if "hdr_rows" not in path.ghost:
+        units = [Obj("Unit", {"name": f"stored_unit_{i}"}, ident=f"stored_unit_{i}") for i in range(2)]
+        rows = [PyDict([("name", "colA"), ("unit", units[0])]), PyDict([("name", "colB")]), PyDict([("name", "colC"), ("unit", units[1])])]
+        path.ghost["hdr_rows"] = rows
+        path.ghost["hdr_units"] = units
+    return path.ghost["hdr_rows"]
+
+
+@model("astropy.io.misc.hdf5.get_header_from_yaml", "thejoker.utils.get_header_from_yaml", "get_header_from_yaml",
+       doc="get_header_from_yaml(lines): the parsed table header; header['datatype'] lists one entry per column with its name and (if any) unit")
+def _get_header(ex, path, args, kwargs, node, fn):
+    return PyDict([("datatype", PyList(_header_rows(path)))])
+
+
+@model("astropy.units.Unit", doc="u.Unit(x) of something that already is a unit: that unit")
+def _Unit(ex, path, args, kwargs, node, fn):
+    return args[0]
+
+
+def _hdr_dataset(ex, path, name):
+    return SymSeq(z3.Int("n_header_lines"), lambda k: Obj("bytes", {}))
+
+
+@model("bytes.decode")
+def _decode(ex, path, args, kwargs, node, fn):
+    return Opaque("header-line")
+
+
+@model("hdr_unit_", doc="spec: the unit stored in header entry i")
+def _hdr_unit(ex, path, args, kwargs, node, fn):
+    _header_rows(path)
+    return path.ghost["hdr_units"][args[0]]
+
+
+_HLIB = {"astropy.table.meta.get_header_from_yaml": _get_header, "astropy.io.misc.hdf5.get_header_from_yaml": _get_header, "thejoker.utils.get_header_from_yaml": _get_header, "get_header_from_yaml": _get_header,
+         "astropy.units.Unit": _Unit, "bytes.decode": _decode, "hdr_unit_": _hdr_unit, "u_one_": lambda ex, path, args, kwargs, node, fn: A.U_ONE, "astropy.units.one": A.U_ONE,
+         "astropy.io.misc.hdf5.meta_path": _meta_path, "thejoker.utils.meta_path": _meta_path, "meta_path": _meta_path}
+header_units = Contract(U + "table_header_to_units", PROPERTY, params={"header_dataset": _hdr_dataset},
+                        ensures={"every-column-of-the-header-is-listed-with-its-stored-unit": "result['colA'] is hdr_unit_(0) and result['colC'] is hdr_unit_(1)",
+                                 "a-column-stored-without-unit-is-dimensionless": "result['colB'] is u_one_()",
+                                 "nothing-else-is-listed": "len(result) == 3"})
+header_units.lib = dict(_HLIB)
+CONTRACTS += [header_units]
